@@ -401,15 +401,13 @@ class Simplifier(pysmt.walkers.DagWalker):
         return self.manager.Times(new_args)
 
     def walk_pow(self, formula: FNode, args: List[FNode], **kwargs) -> FNode:
-        if args[0].is_real_constant():
-            l: Union[int, Fraction] = cast(Fraction, args[0].constant_value())
+        if args[0].is_real_constant() or args[0].is_int_constant():
+            # The result of Pow is always a Real (see the type checker).
+            # 0 to a negative power is a division by zero: not folded.
+            l: Union[int, Fraction] = cast(Union[int, Fraction], args[0].constant_value())
             r: Union[int, Fraction] = cast(Union[int, Fraction], args[1].constant_value())
-            return self.manager.Real(l**r)
-
-        if args[0].is_int_constant():
-            l = cast(int, args[0].constant_value())
-            r = cast(int, args[1].constant_value())
-            return self.manager.Int(l**r)
+            if l != 0 or r >= 0:
+                return self.manager.Real(Fraction(l)**r)
 
         if args[0].is_algebraic_constant():
             from pysmt.constants import Numeral
